@@ -3,8 +3,10 @@ CONSTANTS
   Appenders = {1, 2}
   Readers = {1, 2}
   ReleaseBeforeSwap = FALSE
+  CurNilSafe = FALSE
 INVARIANT OnlyFourStates
 INVARIANT ReaderNeverSeesFreed
 INVARIANT AckedIsSealed
 INVARIANT NoSpuriousEmpty
 INVARIANT NoDeadlock
+INVARIANT PanicOnlyAfterDeletion
